@@ -325,6 +325,12 @@ func TestVerifReplay(t *testing.T) {
 		if strings.Contains(out, "VERIF-PANIC") || strings.Contains(out, "panic:") {
 			verdict = ReplayVerdict{true, "native run panicked: " + firstLineWith(out, "anic")}
 		}
+	case "recursion":
+		if strings.Contains(out, "goroutine stack exceeds") || strings.Contains(out, "stack overflow") {
+			verdict = ReplayVerdict{true, "native run overflowed the stack: " + firstLineWith(out, "stack")}
+		} else if strings.Contains(out, "test timed out") {
+			verdict = ReplayVerdict{true, "native run did not return"}
+		}
 	case "deadlock":
 		if strings.Contains(out, "test timed out") || strings.Contains(out, "all goroutines are asleep") {
 			verdict = ReplayVerdict{true, "native run did not return"}
